@@ -58,6 +58,8 @@ def handleIO (op : String) (args impl : List String) : Verdict :=
       | "open-missing" => "err"
       | "open-dir" => "err"
       | "write-nodir" => "err"
+      | "write-full" => if impl = ["no-dev-full"] then "no-dev-full" else "err"   -- a failing device: the error is reported
+      | "write-ok" => "ok"
       | "write-empty" => if (Dispatch.writeCodec (Dispatch.lowerExt ext)).isSome then "no-subtitles" else "invalid-extension"
       | "write-ext" => if (Dispatch.writeCodec (Dispatch.lowerExt ext)).isSome then "dispatched" else "invalid-extension"
       | "open-ext" => if (Dispatch.openCodec (Dispatch.lowerExt ext)).isSome then "dispatched" else "invalid-extension"
